@@ -4,6 +4,7 @@ import PqModel.Lz4Encode
 import PqModel.Spec.BlockCodecs
 import PqModel.Spec.Inflate
 import PqModel.Spec.InflateFixed
+import PqModel.Spec.InflateMatch
 
 /-! C20 ops: run the pool model of compress/compress.go over a history with the toy stream
 family plugged in (the Go side plugs the same toy streams into the real
@@ -143,6 +144,11 @@ def handle (toks : List String) : Option String :=
   | ["gzip.decode", x] => some <| inflateOp x PqModel.Spec.Inflate.gunzip
   | ["inflate.decode", x] => some <| inflateOp x PqModel.Spec.Inflate.inflate
   | ["inflate.fixedenc", x] => some <| inflateOp x (fun b => .ok (PqModel.Spec.Inflate.fixedLiterals b))
+  /- greedy LZ77 + fixed-Huffman reference encoder with window `w` (proved: inflate_deflateFixed_id) -/
+  | ["inflate.lz77enc", w, x] => some <|
+    match parseNat? w with
+    | some w => inflateOp x (fun b => .ok (PqModel.Spec.Inflate.deflateFixed w b))
+    | none => "bad-op"
   | ["gzip.stored", x] => some <| inflateOp x (fun b => .ok (PqModel.Spec.Inflate.gzipStored b))
   | "codec.run" :: cfg :: pol :: fuel :: ops => some <|
     match parseCfg? cfg, parseNat? fuel, ops.mapM parseCall? with
